@@ -23,6 +23,12 @@ CHECKS = {
         text="Every single fault and pair of faults at every rail call site of 2-3 turn conversations, both rail polarities, both Colang versions; generate must return, the reply must be refusal / internal error and never unapproved LLM text, and the following turn is judged with all rails active. Exhaustive within the bound; one known finding (Colang 2.x inverted-polarity rails fail open).",
         note="trusted: as C01; faults are exceptions raised by custom rail actions (LLM provider failures excluded by the statement); dialog-action faults not yet enumerated",
         design_ref="6/C03"),
+    "C07": dict(
+        category="model_checking", engine="Formula",
+        technique="boolean-formula judge in TLA+ (Formula.tla: Eval / FirstSat); TLC enumerates every and/or formula over distinct atoms up to the bound; each is compiled by the real expander in four statement forms and driven with all event sequences; recorded first-completion steps judged by TLC",
+        text="Every and/or formula with <= 4 (thorough 5) leaves over distinct events/flows, arbitrary nesting, as `match` on events, `await` on flows and `when` on flows/events, against all event orders with irrelevant and repeated events (length <= leaves+1, deeper levels sampled in the thorough tier) and both tie-break outcomes: the marker after the statement must appear at exactly the first step at which the formula holds.",
+        note="trusted: program rendering, Formula.tla; formulas mentioning the same atom twice are outside the quantifier (replayed, noted, not judged); design-level check of the expansion itself is part of ColangSM",
+        design_ref="6/C07"),
     "C12": dict(
         category="model_checking", engine="CFG",
         technique="TLC reachability over the control-flow graph of every compiled flow (the real compiler's FlowConfig.elements exported as JSON): CFG.tla tracks position, open scopes, failure-handler stack and forks along every path; Colang 1.0 offsets by V1Closed.tla",
